@@ -3,7 +3,7 @@ from checks import batchfam
 
 def run(ctx):
     quick = ctx.tier == "quick"
-    batchfam.run_family(ctx, 60 if quick else 3000, 16 if quick else 800, 16 if quick else 40)
+    batchfam.run_family(ctx, 60 if quick else 3000, 16 if quick else 800, 16 if quick else 40, n_cli=80 if quick else 3000)
     ctx.rule = ("(a) application batches with ndjson / CSV file sinks, both persistence policies, flush rates 1/3/1000, two "
                 "consecutive runs appending to the same file; (b) the real ResponseSink written by 2..16 threads released "
                 "by a barrier, rows from 10 B to 600 kB, some already carrying an error and lacking a mapped field; "
